@@ -45,14 +45,14 @@ def h_pack_for(d):
     cfgs = []
     for i in range(d - 1):
         cfgs.append("M(covfie::algebra::matrix<1, 2, float>(covfie::array::array<covfie::array::array<float, 2>, 1>(covfie::array::array<float, 2>{a%d, a%d})))" % (2 * i, 2 * i + 1))
-    cfgs.append("verif::probe_cfg{a%d}" % (2 * (d - 1)))
+    cfgs.append("verif::vprobe<float, 1, float, 1>::configuration_t{a%d}" % (2 * (d - 1)))
     body = "  using B = %s;\n  using M = covfie::algebra::affine<1, float>;\n" % nested_affine(d)
     body += "  covfie::field<B> f(covfie::make_parameter_pack_for<covfie::field<B>>(%s));\n" % ", ".join(cfgs)
     acc = "f.backend()"
     for i in range(d - 1):
         body += "  { auto c = %s.get_configuration(); out[%d] = c(0, 0); out[%d] = c(0, 1); }\n" % (acc, 2 * i, 2 * i + 1)
         acc += ".get_backend()"
-    body += "  out[%d] = static_cast<float>(%s.get_configuration().tag);\n" % (2 * (d - 1), acc)
+    body += "  out[%d] = static_cast<float>(verif::vprobe<float, 1, float, 1>::cfg_traits::tag(%s.get_configuration()));\n" % (2 * (d - 1), acc)
     return Harness("pack_for_%d" % d, args, body, out=("float", 2 * (d - 1) + 1), meta={"kind": "pack_for", "d": d})
 
 
@@ -117,9 +117,9 @@ def h_layer(layer, N, S, how, M=2):
         body += "  B::owning_data_t o(covfie::make_parameter_pack(%s));\n" % cfg
     body += "  const B::owning_data_t & co = o;\n  auto c = co.get_configuration();\n  " + "\n  ".join(read) + "\n"
     if P:
-        body += "  out[%d] = static_cast<double>(co.get_backend().get_configuration().tag);\n" % nf
-        body += "  out[%d] = static_cast<double>(o.get_backend().get_configuration().tag);\n" % (nf + 1)
-        body += "  B::non_owning_data_t v(o); const B::non_owning_data_t & cv = v;\n  out[%d] = static_cast<double>(cv.get_backend().m_cfg.tag);\n" % (nf + 2)
+        body += "  out[%d] = static_cast<double>(P::cfg_traits::tag(co.get_backend().get_configuration()));\n" % nf
+        body += "  out[%d] = static_cast<double>(P::cfg_traits::tag(o.get_backend().get_configuration()));\n" % (nf + 1)
+        body += "  B::non_owning_data_t v(o); const B::non_owning_data_t & cv = v;\n  out[%d] = static_cast<double>(P::cfg_traits::tag(cv.get_backend().m_cfg));\n" % (nf + 2)
     return Harness("cfg_%s_%s%d_%s" % (layer, S, N, "pack" if how == "pack" else "cb"), args, body, out=("double", nf + (3 if P else 0)),
                    meta={"kind": "layer", "layer": layer, "N": N, "S": S, "how": how, "nf": nf, "probe": bool(P)})
 
@@ -221,6 +221,14 @@ def check(tier):
     rep = Report("C17", tier, "other")
     declare(rep)
     hs = run(rep, tier)
+    # the same over probes that look like other backends to compile-time inspection (1: configuration is nd_size<N>, 2: array-like: constructible
+    # from a count): a construction route that special-cases the type of the inner backend shows here
+    for mimic in (1, 2):
+        harness.GLOBAL_EXTRA = ["-DVERIF_PROBE_MIMIC=%d" % mimic]
+        try:
+            run(rep, "quick")
+        finally:
+            harness.GLOBAL_EXTRA = []
     # the array backend's configuration (element count), including narrow index types: rules C01.d
     from . import c01
     c01.declare(rep)
